@@ -97,8 +97,10 @@ pub struct Entry {
     pub budgets: Vec<u64>,
     /// run `repeat` times on one VM without clear (history mode) instead of fresh VMs
     pub history: usize,
+    /// in history mode: call Vm::clear() before every run but the first
+    pub clear: bool,
 }
-fn e(name: &'static str, m: Module) -> Entry { Entry { name, module: m, budgets: vec![], history: 0 } }
+fn e(name: &'static str, m: Module) -> Entry { Entry { name, module: m, budgets: vec![], history: 0, clear: false } }
 
 /// Hand-written programs: one per construct and one per known suspicious behaviour.
 pub fn corpus() -> Vec<Entry> {
@@ -447,6 +449,22 @@ pub fn corpus() -> Vec<Entry> {
     ]));
     h2.history = 6;
     v.push(h2);
+    let mut hc = e("history_clear", module(vec![
+        ("main", func(&[], vec![
+            sv("t", array(vec![int(1), s("two")])),
+            sg("t", rv("t")),
+            sv("c", closure(&[], vec![ret(rv("t"))])),
+            sg("c", rv("c")),
+            sv("_r", native("try1", vec![fval("boom"), int(1)])),
+            log(rv("t")),
+            int(5),
+            s("left on the stack"),
+        ])),
+        ("boom", func(&["x"], vec![sv("_q", native("fail0", vec![])), ret(int(1))])),
+    ]));
+    hc.history = 5;
+    hc.clear = true;
+    v.push(hc);
     v.push(e("stdlib_minmax_sorted", module_std(vec![
         ("main", func(&[], vec![
             sv("t", table()),
@@ -593,7 +611,7 @@ impl<'a> Gen<'a> {
             };
         }
         let d = depth - 1;
-        match self.rng.below(24) {
+        match self.rng.below(25) {
             0..=5 => { let k = self.rng.below(3) as usize; let a = self.expr(d); let b = self.expr(d); bin(k, a, b) }
             6 => { self.feat("div"); let a = self.expr(d); let b = self.expr(d); bin(3, a, b) }
             7..=9 => { let k = 4 + self.rng.below(4) as usize; let a = self.expr(d); let b = self.expr(d); bin(k, a, b) }
@@ -621,6 +639,20 @@ impl<'a> Gen<'a> {
             21 => {
                 self.feat("closure");
                 self.closure_expr(d)
+            }
+            23 => {
+                self.feat("stdlib");
+                let t = self.table_expr(d);
+                match self.rng.below(8) {
+                    0 => call("min", vec![t]),
+                    1 => call("max", vec![t]),
+                    2 => call("sorted", vec![t]),
+                    3 => call("to_array", vec![t]),
+                    4 => { let f = self.fn_value_expr(2, d); call("min_by_key", vec![t, f]) }
+                    5 => { let f = self.fn_value_expr(2, d); call("sorted_by_key", vec![t, f]) }
+                    6 => { let f = self.fn_value_expr(3, d); call("map", vec![t, f]) }
+                    _ => { let f = self.fn_value_expr(3, d); call("filter", vec![t, f]) }
+                }
             }
             22 => match self.any_var() {
                 Some(v) => { self.feat("dyn_call_var"); let n = self.rng.below(3) as usize; dyn_call(rv(&v), (0..n).map(|_| self.expr(0)).collect()) }
@@ -836,6 +868,10 @@ impl<'a> Gen<'a> {
             if self.rng.chance(3, 4) { let r = self.expr(2); cards.push(ret(r)); }
             fns.push((name, Function { arguments: args, cards }));
         }
-        Module { submodules: vec![], functions: fns, imports: vec![] }
+        let imports = ["min", "max", "sorted", "min_by_key", "max_by_key", "sorted_by_key", "to_array", "map", "filter", "any"]
+            .iter()
+            .map(|x| format!("std.{}", x))
+            .collect();
+        Module { submodules: vec![], functions: fns, imports }
     }
 }
